@@ -58,12 +58,16 @@ SliceConfigs == {[verb |-> "slices", size |-> z, args |-> a, alias |-> al] : z \
 UnionConfigs == {[verb |-> "union", l |-> l, r |-> r, distinct |-> d] : l \in Arrs(SeqSet(UCols)), r \in Arrs(SeqSet(UCols)), d \in BOOLEAN}
 
 KeySeqs == UNION {[1..m -> JKeys] : m \in 0..JMaxLen}
-JoinConfigs == {[verb |-> "joinrows", l |-> l, r |-> r, how |-> h, on |-> o] :
-                    l \in KeySeqs, r \in KeySeqs, h \in {"inner", "left", "full"}, o \in {"eq", "str", "le"}}
-JoinValid(c) == c.on = "le" => c.how # "full"          \* a full join takes equality predicates only (documented ValueError otherwise)
+(* named: FALSE = the tables have no name (the right columns then get the default suffix "_right") *)
+JoinConfigs == {[verb |-> "joinrows", l |-> l, r |-> r, how |-> h, on |-> o, named |-> nm] :
+                    l \in KeySeqs, r \in KeySeqs, h \in {"inner", "left", "full"}, o \in {"eq", "str", "le", "eqle"}, nm \in BOOLEAN}
+JoinValid(c) == /\ (c.on \in {"le", "eqle"} => c.how # "full")
+                /\ (~c.named => (c.on \in {"eqle", "le"} /\ Len(c.l) + Len(c.r) >= 3))      \* the unnamed variant only where it takes another path          \* a full join takes equality predicates only (documented ValueError otherwise)
 
 JoinExpected(c) ==      \* set of <<lid, rid>>, 0 = padded with nulls
-    LET match(i, j) == c.l[i] # 0 /\ c.r[j] # 0 /\ (IF c.on = "le" THEN c.l[i] <= c.r[j] ELSE c.l[i] = c.r[j])
+    LET match(i, j) == c.l[i] # 0 /\ c.r[j] # 0 /\ (CASE c.on = "le" -> c.l[i] <= c.r[j]
+                                                          [] c.on = "eqle" -> c.l[i] = c.r[j] /\ i <= j        \* (l.k == r.k) & (lid <= rid)
+                                                          [] OTHER -> c.l[i] = c.r[j])
         inner == {<<i, j>> : i \in DOMAIN c.l, j \in DOMAIN c.r} \cap {p \in (DOMAIN c.l) \X (DOMAIN c.r) : match(p[1], p[2])}
         lpad == {<<i, 0>> : i \in {i \in DOMAIN c.l : \A j \in DOMAIN c.r : ~match(i, j)}}
         rpad == {<<0, j>> : j \in {j \in DOMAIN c.r : \A i \in DOMAIN c.l : ~match(i, j)}}
@@ -114,8 +118,9 @@ JudgeWin(c, out, err) ==
 (* two rows of SOME sorted order.                                                                                                    *)
 ArrRows == {<<a, b>> : a \in {99, 1, 2}, b \in {99, 1, 2}}
 ArrSeqs == UNION {[1..m -> ArrRows] : m \in 0..AMaxLen}
-ArrConfigs == {[verb |-> "arrange", rows |-> rs, d1 |-> d1, n1 |-> n1, d2 |-> d2, n2 |-> n2, take |-> tk] :
-                  rs \in ArrSeqs, d1 \in BOOLEAN, n1 \in {"first", "last"}, d2 \in BOOLEAN, n2 \in {"first", "last"}, tk \in {0, 2}}
+(* ck: a constant column (mutate(k = 2)) is the FIRST ordering key - it orders nothing (and must not be read as a column position) *)
+ArrConfigs == {[verb |-> "arrange", rows |-> rs, d1 |-> d1, n1 |-> n1, d2 |-> d2, n2 |-> n2, take |-> tk, ck |-> ck] :
+                  rs \in ArrSeqs, d1 \in BOOLEAN, n1 \in {"first", "last"}, d2 \in BOOLEAN, n2 \in {"first", "last"}, tk \in {0, 2}, ck \in BOOLEAN}
 
 JudgeArrange(c, out, err) ==
     IF err # "" THEN "unexpected-error"
